@@ -101,10 +101,18 @@ func doCompile(in []byte) (out string) {
 	if cerr != nil {
 		return errS + " COMPOSEERR:" + hex.EncodeToString([]byte(canonMsg(cerr.Error())))
 	}
-	// the CLI path, on a fresh parse (Source mutates the tree)
+	// the CLI path through its own entry point: the bytes go to a file, compiler.ParseFile reads it back
+	// (what `goht generate` does), then Generate
 	genSame := "na"
-	if err == nil {
-		if t2, err2 := compiler.ParseString(string(in)); err2 == nil {
+	if f, ferr := os.CreateTemp("", "verif-*.goht"); ferr == nil {
+		f.Write(in)
+		f.Close()
+		t2, err2 := compiler.ParseFile(f.Name())
+		os.Remove(f.Name())
+		switch {
+		case (err == nil) != (err2 == nil):
+			genSame = "diff:" + hex.EncodeToString([]byte(fmt.Sprintf("ParseString error %v, ParseFile error %v", err, err2)))
+		case err2 == nil:
 			var gbuf bytes.Buffer
 			if gerr := t2.Generate(&gbuf); gerr == nil {
 				if bytes.Equal(gbuf.Bytes(), buf.Bytes()) {
@@ -115,8 +123,6 @@ func doCompile(in []byte) (out string) {
 			} else {
 				genSame = "generr"
 			}
-		} else {
-			genSame = "reparse-err"
 		}
 	}
 	return fmt.Sprintf("%s %sX %sX %sX %s", errS, hex.EncodeToString(buf.Bytes()), dump(sm.SourceLinesToTarget), dump(sm.TargetLinesToSource), genSame)
